@@ -102,8 +102,12 @@ def finish(ctx, t0, seed=0):
     known = load_known()
     open_keys = {e["key"]: e for e in known.get("open", []) if e.get("property") == prop}
     violations, known_hit = [], []
+    import re as _re
     for o in ctx.obligations:
         if o["verdict"] == "violation":
+            base_key = _re.sub(r"\[(concurrent|nostd)\]$", "", o["key"])
+            if base_key in open_keys:
+                o["key"] = base_key
             if o["key"] in open_keys:
                 o["verdict"] = "known-finding"
                 known_hit.append(o)
@@ -190,7 +194,8 @@ def selftest_obligations(ctx):
     for pth in sorted(glob.glob(os.path.join(VERIF, "selftest", "mutants", "*.patch")) +
                       glob.glob(os.path.join(VERIF, "seeded", "*", "patch.diff"))):
         hdr = selftest.read_header(pth)
-        if ctx.prop in [x.strip() for x in hdr.get("property", "").split(",")]:
+        # the first property named in the header owns the expected key
+        if ctx.prop == hdr.get("property", "").split(",")[0].strip():
             patches.append(pth)
     import concurrent.futures
     with concurrent.futures.ThreadPoolExecutor(max_workers=int(os.environ.get("WF_JOBS", "6"))) as ex:
